@@ -237,6 +237,29 @@ where
             }
             refuse(h, "generator_point_junk_scalars", &t);
         }
+        // every truncation of the honest commitment-with-proof, and garbage of the short lengths
+        for len in 1..run.cwp.len() {
+            if !thorough && len > 120 && len % 16 != 0 && len % 32 != 1 {
+                continue;
+            }
+            refuse(h, "truncated_to_len", &run.cwp[..len]);
+            if len <= 128 && (len % 16 == 0 || len < 100) {
+                let g = h.rng.bytes(len);
+                refuse(h, "garbage_len", &g);
+            }
+        }
+        // a zero-message commitment (112 octets) and its truncations, for a signer with messages
+        {
+            let tape0 = rand_tape(h, 2);
+            if let (Some((c0, _)), _) = { let (o, d) = commit::<CS>(h, None, tape0); (o.ok(), d) } {
+                let b0 = c0.to_bytes();
+                let s0 = blindsign::<CS>(h, &sk, &pk, Some(&b0), hdr.as_deref(), Some(&msgs));
+                h.expect(s0.is_ok(), "C06.zero_msg_commit", "honest zero-message commitment refused", &[h.last()]);
+                for len in [80usize, 81, 96, 111, 79, 48, 32] {
+                    refuse(h, "zero_msg_commit_truncated", &b0[..len]);
+                }
+            }
+        }
         // truncated / extended by whole scalars
         if m > 0 {
             let mut t = run.cwp[..run.cwp.len() - 64].to_vec();
